@@ -520,7 +520,8 @@ def digit_tables():
 # ---------------------------------------------------------------- extract
 def extract(repo):
     util = common.fresh_import(repo, 'aiorpcx.util')
-    facts = {'contexts': {k: list(v) for k, v in CONTEXTS.items()}}
+    facts = {'contexts': {k: list(v) for k, v in CONTEXTS.items()},
+             'source_key': source_key(repo, CONTEXTS)}
     facts['tables'] = compute_tables(repo)
     facts['decisions'] = decision_tables(util)
     facts['params'] = synthesise(facts['tables'], facts['decisions'])
